@@ -360,6 +360,7 @@ func cmdC06Replay(args []string) {
 	start := 0
 	crashes := 0
 	runs := 0
+	budget := false
 	for start < total {
 		cmd := exec.Command(os.Args[0], "c06-child", args[0], fmt.Sprint(start))
 		var stderr bytes.Buffer
@@ -391,12 +392,18 @@ func cmdC06Replay(args []string) {
 			runs += rp.Runs
 			if rp.Class != "" {
 				res.Fail(rp.Class, rp.Detail, rp.Case)
+				// failure budget: a broken tree fails thousands of sequences, each after its time bound
+				if res.FailCount[rp.Class] >= 40 || len(res.FailCount) >= 12 {
+					budget = true
+					cmd.Process.Kill()
+					break
+				}
 			} else if rp.I%997 == 0 {
 				res.Sample(map[string]interface{}{"case": rp.I, "observed": "as specified (settled and pipelined)"})
 			}
 		}
 		werr := cmd.Wait()
-		if last+1 >= total && werr == nil {
+		if budget || (last+1 >= total && werr == nil) {
 			break
 		}
 		// the child died while replaying case last+1
@@ -420,6 +427,7 @@ func cmdC06Replay(args []string) {
 	res.Distinct = total
 	res.SetExtra("replays", runs)
 	res.SetExtra("child_crashes", crashes)
+	res.SetExtra("stopped_on_failure_budget", budget)
 	res.Emit()
 }
 
